@@ -581,7 +581,30 @@ func xidSources(w *core.World, fn *core.FuncInfo, e ast.Expr, depth int, keys ma
 			return
 		}
 		if isParam(fn, v) {
-			*bad = append(*bad, "parameter "+v.Name())
+			// a helper of the integration that is handed the xid: what its callers (in the package) hand it
+			idx := -1
+			for i, p := range paramObjs(fn) {
+				if p == types.Object(v) {
+					idx = i
+				}
+			}
+			var sites []*core.CallSite
+			for _, cs := range w.Callers(fn.Obj) {
+				if cs.Caller.Pkg == fn.Pkg && !w.IsTestFile(cs.Caller.Decl.Pos()) && !cs.Iface && cs.Caller != fn {
+					sites = append(sites, cs)
+				}
+			}
+			if idx < 0 || len(sites) == 0 || fn.Obj.Exported() {
+				*bad = append(*bad, "parameter "+v.Name())
+				return
+			}
+			for _, cs := range sites {
+				if idx >= len(cs.Call.Args) {
+					*bad = append(*bad, "parameter "+v.Name())
+					continue
+				}
+				xidSources(w, cs.Caller, cs.Call.Args[idx], depth-1, keys, bad)
+			}
 			return
 		}
 		defs := localDefs(fn, v)
@@ -756,6 +779,18 @@ func c07RPC(r *core.Run) {
 					if isMetaWrite(callee) && len(x.Args) == 2 {
 						c := keyConst(info, x.Args[0])
 						o := origin(f, x.Args[1], 4)
+						// (a helper of the integration handed the xid: in the terms of its caller)
+						if strings.HasPrefix(o, "param:") && !f.Obj.Exported() {
+							var tops []*core.FuncInfo
+							for _, cs := range w.Callers(f.Obj) {
+								if cs.Caller.Pkg == f.Pkg && cs.Caller != f && !w.IsTestFile(cs.Caller.Decl.Pos()) {
+									tops = append(tops, cs.Caller)
+								}
+							}
+							if tops = dedupFns(tops); len(tops) == 1 {
+								o = originViaStr(tops[0], f, o, 4)
+							}
+						}
 						if (c != nil && xidKeyConsts[c.Name()]) || strings.Contains(o, "pkg/tm.GetXID(") {
 							nWrite++
 							r.Fn(f)
